@@ -1,5 +1,6 @@
 import CryoCat.Drv.Proto
 import CryoCat.Model.C04
+import CryoCat.Model.C04_Star
 namespace CryoCat.Drv.C04
 open Lean CryoCat CryoCat.C04
 
@@ -54,20 +55,53 @@ def tableFloat (t : SgTable Nat) : SgTable Float := { cols := t.cols, rows := t.
 
 def nan : Float := 0.0 / 0.0
 
+/-- an option that may be omitted by the caller: `true`/`false` given, `null`/absent = omitted -/
+def optBool (j : Json) (k : String) : Option (Option Bool) :=
+  match j.getObjVal? k with
+  | .ok (Json.bool b) => some (some b)
+  | .ok Json.null => some none
+  | .error _ => some none
+  | _ => none
+
+/-- run-time cross-check of the exact integer decoding against the hardware float: every decoded
+integer converts back to the same bit pattern, every undecodable pattern is non-integral or
+non-finite, `encodeNat` is the bit pattern of the float, and floating-point `mod 2 = 0` agrees with
+the parity of the decoded integer -/
+def decodeAgrees (b : Nat) : Bool :=
+  let x := floatOfBits b
+  (match decodeInt b with
+   | some z => (bitsOfFloat (Float.ofInt z) == b || (z == 0 && x == 0.0))
+   | none => (x.isNaN || x.isInf || x.floor != x)) &&
+  (floatOps.modEq x 2 0 == intBitOps.modEq b 2 0)
+
 def handleExport (j : Json) : Json :=
-  match getArr? j "rows" >>= parseRows, (j.getObjValAs? Bool "reset").toOption, (j.getObjValAs? Bool "update").toOption with
-  | some rows, some reset, some update =>
+  match getArr? j "rows" >>= parseRows, optBool j "reset", optBool j "update", (getStr? j "route").getD "file" with
+  | some rows, some resetO, some updateO, route =>
     let motl := rows.map particleOfBits
+    let (update, reset) :=
+      if route == "mem" then (false, resetO.getD Gen.C04.convResetDefault)
+      else if route == "conv" then (updateO.getD Gen.C04.em2sgUpdateDefault, resetO.getD Gen.C04.em2sgResetDefault)
+      else (updateO.getD Gen.C04.writeUpdateDefault, resetO.getD Gen.C04.writeResetDefault)
+    let tbl :=
+      if route == "mem" then (toSgOpt floatOps resetO motl).map (fun rs => ({ cols := sgColumns, rows := rs.map (fun r => sgColumns.map r) } : SgTable Float))
+      else if route == "conv" then em2sgOpt floatOps roundHalfUp updateO resetO motl
+      else writeOutOpt floatOps roundHalfUp updateO resetO motl
     let m := if update then motl.map (updateCoord roundHalfUp) else motl
     let mb := m.map particleBits
-    match writeOutTable floatOps roundHalfUp update reset motl with
+    match tbl with
     | none => err "reject:length-mismatch"
     | some t =>
       let back := match importTable nan t with
         | some ps => motlJson (ps.map particleBits)
-        | none => err "reject:keyerror"
-      let base := [("table", tableJson (tableBits t)), ("updated", motlJson mb), ("back", back)]
-      -- verified checker on the implementation's own output(s), against the (updated) particle list
+        | none => err "reject:import"
+      let n := mb.length
+      let agree := mb.all (fun p => decodeAgrees p.subtomo_id) &&
+        (List.range n).all (fun i => encodeNat (i + 1) == bitsOfFloat (i + 1).toFloat)
+      let base := [("table", tableJson (tableBits t)), ("updated", motlJson mb), ("back", back),
+                   ("eff", Json.mkObj [("reset", Json.bool reset), ("update", Json.bool update)]),
+                   ("decode_agrees", Json.bool agree)]
+      -- verified checker on the implementation's own output, against the (updated) particle list;
+      -- parity and 1..N are decided on exactly decoded integers (`intBitOps`), not with float `mod`
       let chk (key : String) : List (String × Json) :=
         match (j.getObjVal? key).toOption >>= parseTable with
         | none => []
@@ -75,17 +109,21 @@ def handleExport (j : Json) : Json :=
           [(key, Json.mkObj [
             ("cols", Json.bool (decide (out.cols = SgField.all))),
             ("fields", Json.bool (checkFields mb out)),
-            ("halfset", Json.bool (checkHalf bitOps mb out)),
-            ("motl_idx", Json.bool (checkIdx bitOps reset mb out))])]
-      Json.mkObj (base ++ chk "out" ++ chk "out2")
-  | _, _, _ => err "bad-args"
+            ("halfset", Json.bool (checkHalf intBitOps mb out)),
+            ("motl_idx", Json.bool (checkIdx intBitOps reset mb out))])]
+      Json.mkObj (base ++ chk "out")
+  | _, _, _, _ => err "bad-args"
 
 def handleImport (j : Json) : Json :=
   match (j.getObjVal? "table").toOption >>= parseTable with
   | none => err "bad-args"
   | some tb =>
-    match importTable nan (tableFloat tb) with
-    | none => err "reject:keyerror"
+    let t := tableFloat tb
+    match importTable nan t with
+    | none =>
+      if !(sgPairs.all (fun es => t.cols.contains es.2)) then err "reject:keyerror"
+      else if !t.rect then err "reject:ragged"
+      else err "reject:text-in-numeric-column"
     | some ps =>
       let base := [("motl", motlJson (ps.map particleBits))]
       let chk := match getArr? j "out" >>= parseRows with
@@ -93,10 +131,27 @@ def handleImport (j : Json) : Json :=
         | some rows => [("check", Json.bool (checkImport tb (rows.map (fun l => Particle.ofList 0 l))))]
       Json.mkObj (base ++ chk)
 
+/-- the proved reader (`starRead`, the C02 model of `Starfile.read` + `read_in`) run on the text of the
+file the real `write_out` produced: header by name, rows, and which columns it types as numbers;
+number cells are returned as the tokens read (`parse` = identity) -/
+def handleStar (j : Json) : Json :=
+  match getStr? j "text" with
+  | none => err "bad-args"
+  | some txt =>
+    match starRead (fun w => w) Gen.C04.readSpecifier txt.toList with
+    | none => err "reject:star-read"
+    | some t =>
+      let cell : Cell C02.Word → Json
+        | .num w => Json.arr #[Json.str "n", Json.str (String.ofList w)]
+        | .str s => Json.arr #[Json.str "s", Json.str s]
+      Json.mkObj [("cols", Json.arr (t.cols.map (fun f => Json.str f.name)).toArray),
+                  ("rows", Json.arr (t.rows.map (fun r => Json.arr (r.map cell).toArray)).toArray)]
+
 def handle (j : Json) : Json :=
   match getStr? j "op" with
   | some "export" => handleExport j
   | some "import" => handleImport j
+  | some "star" => handleStar j
   | _ => err "bad-op"
 
 end CryoCat.Drv.C04
